@@ -510,6 +510,13 @@ func (u *Upstream) sendChunkAndWaitAck(ctx context.Context, msgChunk *message.Up
 	u.receivedAck.L.Lock()
 	defer u.receivedAck.L.Unlock()
 
+	if result == nil && u.Config.QoS == message.QoSReliable {
+		// ack timeout: a reliable stream must not forget a chunk the broker has not acknowledged;
+		// it stays in the sent storage and is retransmitted after the next resume
+		u.receivedAck.Broadcast()
+		return
+	}
+
 	if result != nil && atomic.LoadUint32(&u.maxSequenceNumberInReceivedUpstreamChunkResults) < msgChunk.StreamChunk.SequenceNumber {
 		atomic.StoreUint32(&u.maxSequenceNumberInReceivedUpstreamChunkResults, msgChunk.StreamChunk.SequenceNumber)
 	}
